@@ -52,10 +52,21 @@ def _conv(opts, use_map=False):
                                 resonance=res, use_atom_map_number=use_map)
 
 
+POLYCYCLES = [
+    "c1ccc2c(c1)CCCCC2", "c1ccc2c(c1)CCCCCC2", "c1ccc2c(c1)CCCC2",
+    "c1ccc2c(c1)CCC2", "c1ccc2ccccc2c1", "c1ccc2cccc2cc1",
+    "c1ccc2c(c1)CCc1ccccc1C2", "c1cc2CCCCCCc2[nH]1", "C1=CC2=C(C1)CCCCCC2",
+    "C1=CCCC2=C1CCCCCC2", "c1ccc2c(c1)OCCCCO2", "c1ccc2c(c1)CCCCCCC2",
+    "C1CCC2=C(C1)CCCCCC2", "c1ccc2c(c1)NCCCCC2", "c1cnc2c(c1)CCCCCC2",
+]
+
+
 def gen(data: bytes):
     tp = S.Tape(data)
-    k = tp.weighted([6, 3])
-    if k == 0:
+    k = tp.weighted([6, 3, 1])
+    if k == 2:
+        smi = tp.pick(POLYCYCLES)
+    elif k == 0:
         smi = rdgen.organic_smiles(tp, max_heavy=9)
         if smi is None:
             smi = "C[C@H](F)Cl"
